@@ -19,7 +19,7 @@ from common import Str, sx  # noqa: E402
 from props import c01  # noqa: E402
 
 ID = 'C13'
-LEAN_MODULES = ['Cellml.Props.C13', 'Cellml.Tie.CmetaQ', 'Cellml.Tie.Cmeta', 'Cellml.Tie.ConnLoop', 'Cellml.Props.C13Gen',
+LEAN_MODULES = ['Cellml.Props.C13', 'Cellml.Tie.CmetaQ', 'Cellml.Tie.Cmeta', 'Cellml.Tie.Misc5', 'Cellml.Tie.ConnLoop', 'Cellml.Props.C13Gen',
                 'Cellml.Tie.RdfQ', 'Cellml.Props.C13GenQ']
 N = {'quick': 3000, 'thorough': 40000}
 RULE = ('histories of 6-28 calls (add_variable with/without cmeta id incl. ids in use and the model\'s own id, '
